@@ -17,7 +17,7 @@ RULE = (
     "case = list of plaintext frames (type ids incl. multi-byte varints, payload lengths 0..70001) "
     "encoded by the independent encoder, a segmentation (sorted cut offsets, duplicates = empty chunks, "
     "biased to header/varint/frame-boundary offsets) and a buffer kind per chunk "
-    "(bytes/bytearray/memoryview/sliced memoryview); catalogue sub-domain: every 1-cut and 2-cut and the "
+    "(bytes/bytearray/memoryview/sliced memoryview/multi-byte-item memoryviews); catalogue sub-domain: every 1-cut and 2-cut and the "
     "byte-at-a-time segmentation of 26 short streams. non-trivial = at least 2 frames and at least one cut "
     "strictly inside a frame (header or payload). distinct = distinct canonical JSON of the case."
 )
@@ -67,7 +67,7 @@ def run_case(case: dict) -> CaseResult:
     inside = False
     for i, chunk in enumerate(wire.iter_cut(stream, cuts)):
         kind = kinds[i % len(kinds)]
-        if kind % 4:
+        if kind % 6:
             classes.add("non_bytes_chunk")
         if len(chunk) == 0:
             classes.add("empty_chunk")
@@ -196,6 +196,9 @@ def enumerated(tier):
         k = ci
         yield {"frames": frames, "cuts": list(range(1, n)), "kinds": [ci % 4]}
         yield {"frames": frames, "cuts": list(range(0, n + 1)), "kinds": [0, 1, 2, 3]}
+        for w in (2, 4):  # chunks of 2 / 4 bytes as views whose len() counts items
+            yield {"frames": frames, "cuts": list(range(w, n, w)), "kinds": [4 if w == 2 else 5]}
+            yield {"frames": frames, "cuts": list(range(w, n, 2 * w)), "kinds": [4 if w == 2 else 5, 0]}
         for a in range(0, n + 1):
             yield {"frames": frames, "cuts": [a], "kinds": [k % 4, (k + 1) % 4]}
             k += 1
